@@ -48,7 +48,7 @@ MANIFEST = dict(
                 "sequences, partial states included, against real iptables/ip6tables/nft in a network namespace); the "
                 "harness fakes at the subprocess boundary. Theorems cover nat only; tproxy/nft are covered by the "
                 "exhaustive differential run and the oracle. tproxy holds for the repaired code "
-                "(proposed_fixes/C04-tproxy-nonfatal.diff). Tear-down faults: checked by the oracle (other family "
+                "(fix commit a1baf82). Tear-down faults: checked by the oracle (other family "
                 "still restored, foreign part untouched, later session starts), not proved. pf: modelled in Lean "
                 "(unvalidated, from the manual pages), not yet driven by the harness. Signals/SIGKILL outside."),
     technique="Lean 4 proof (partial-state invariant + frame, Hoare rules over a fault schedule) + in-process differential "
